@@ -37,6 +37,28 @@ CLAIMS["C03"] = (
     "predicates, and of (path)[n]; parents with different fan-out are enumerated exhaustively.",
     CLAIMS["C01"][2], "DESIGN.md 4/C03")
 
+CLAIMS["C07"] = (
+    "TLA+ comparison matrix and boolean operators (XSem.tla Compare/ToBool, XValue.tla exact IEEE model) explored by TLC "
+    "over the full operator x operand-type x operand-value matrix on value documents; replay on the engine via Evaluate "
+    "and as predicates via Select",
+    "Exhaustive model checking of the claimed type pairs: 6 operators x number/string/node-set operands incl. NaN, "
+    "infinity, non-numeric, empty, whitespace-padded and duplicate node values; short-circuit observed through an operand "
+    "that raises a deliberate complaint if evaluated.",
+    CLAIMS["C01"][2], "DESIGN.md 4/C07")
+CLAIMS["C08"] = (
+    "TLA+ exact model of IEEE-754 arithmetic on signed dyadic rationals with NaN/Infinity/signed zero (XValue.tla) "
+    "explored by TLC over all arithmetic trees of depth 1-2 (thorough: larger leaf sets); bit-exact comparison of the "
+    "engine's float64 with the specified value",
+    "Bounded-exhaustive model checking of arithmetic, number(), count(), sum(), floor(), ceiling(), unary minus and "
+    "string(number); expressions whose exact value leaves the dyadic model (1 div 3) are outside the model and skipped.",
+    CLAIMS["C01"][2] + " IEEE rounding itself is not modelled (DESIGN.md 8).", "DESIGN.md 4/C08")
+CLAIMS["C09"] = (
+    "TLA+ string library (XValue.tla) explored by TLC over the full argument product per function (substring: strings x "
+    "15 starts x 11 lengths incl. negative/fractional/beyond the end) and depth-2 compositions; replay on the engine",
+    "Exhaustive model checking of every string function over an ASCII pool incl. empty / whitespace strings and flat "
+    "node-set arguments (first node, empty set).",
+    CLAIMS["C01"][2], "DESIGN.md 4/C09")
+
 NOT_YET = "check not built yet in this round (see DESIGN.md section 9 for the construction order)"
 
 
